@@ -1,0 +1,15 @@
+//go:build verif
+
+// Contracts for the verif build tag: comment-only, read by /verif/engine (govc).
+package accesslist
+
+//@ # ---- C17: a client outside the access list gets no reply and causes no downstream work; internal traffic bypasses the list
+//@ func (*List).ServeDNS
+//@   requires a != nil && ch != nil
+//@   ensures wInternal(old(ch.Writer)) ==> calls("(*middleware.Chain).Next") == 1 && calls("(*middleware.Chain).Cancel") == 0 && calls("(*internal/ipset.Set).ContainsIP") == 0
+//@   ensures !wInternal(old(ch.Writer)) && !containsIP(old(a.allowed), wRemoteIP(old(ch.Writer))) ==> calls("(*middleware.Chain).Cancel") == 1 && calls("(*middleware.Chain).Next") == 0
+//@   ensures !wInternal(old(ch.Writer)) && containsIP(old(a.allowed), wRemoteIP(old(ch.Writer))) ==> calls("(*middleware.Chain).Next") == 1 && calls("(*middleware.Chain).Cancel") == 0
+//@   ensures calls("(middleware.ResponseWriter).WriteMsg") == 0 && calls("(middleware.ResponseWriter).Write") == 0 && calls("(*middleware.Chain).CancelWithRcode") == 0
+//@ func (*List).ClientOnly
+//@   modifies nothing
+//@   ensures result
